@@ -91,6 +91,7 @@ type CheckRun struct {
 	Seed      int64
 	Results   []*ObResult
 	Errs      []string
+	Notes     []string
 	Funcs     []string
 	Trusted   map[string]string
 	Assume    []string
@@ -168,7 +169,8 @@ func runCheck(prop, tier string, rebaseline bool) int {
 		}
 		fn := ld.funcs[name]
 		if fn == nil {
-			run.Errs = append(run.Errs, fmt.Sprintf("contract for %s: no such function in the working tree", name))
+			// the function under contract is gone: its obligations of the baseline are reported as missing
+			run.Notes = append(run.Notes, fmt.Sprintf("contract for %s: no such function in the working tree", name))
 			continue
 		}
 		run.Funcs = append(run.Funcs, name)
@@ -358,7 +360,7 @@ func finishCheck(run *CheckRun, rebaseline bool) int {
 	// obligations of the baseline that were not generated any more
 	for _, name := range base[prop] {
 		if _, ok := have[name]; !ok {
-			failed = append(failed, &ObResult{Name: name, Status: "missing", Backend: "govc", Note: "obligation proved on the pinned tree is no longer generated from the current source (contract clause, function or emitted function disappeared)"})
+			failed = append(failed, &ObResult{Name: name, Status: "missing", Backend: "govc", Note: "obligation proved on the pinned tree is no longer generated from the current source (contract clause, function or emitted function disappeared) " + strings.Join(run.Notes, "; ")})
 		}
 	}
 	for _, l := range kfLines {
@@ -514,7 +516,7 @@ func writeEvidence(run *CheckRun, kfLines []string, violations int) {
 		"bounded_note":             "obligations named gen[...] are proved on the functions moq emits for the schema packages (/verif/schema): all values, states and schedules, but arity-bounded (<= 6 parameters, <= 2 results, <= 10 methods); generalisation to other arities rests on the template-uniformity obligations",
 		"schema_scenarios":         run.Schemas,
 		"known_findings":           kfLines,
-		"engine_messages":          run.Errs,
+		"engine_messages":          append(append([]string{}, run.Errs...), run.Notes...),
 	}
 	if n == 0 {
 		cov["explanation"] = "no obligation could be generated on this run"
